@@ -61,6 +61,12 @@ def call_strategy(moves=True, extras=True):
         st.tuples(st.sampled_from(["wait-for-bed", "wait-for-hotend", "wait-for-chamber"]),
                   st.sampled_from(["S", "R", "s", "r"]), sv).map(
             lambda t: C("halt", t[0], **{t[1]: t[2]})),
+        # a plain halt with a time word (Marlin: M0 S<seconds> / P<ms>): the word
+        # is neither a temperature nor a spindle speed
+        st.tuples(st.sampled_from(["pause", "optional-pause", "end-with-reset",
+                                   "pallet-exchange", "wait-for-motion"]),
+                  st.sampled_from(["S", "R", "P", "s"]), v).map(
+            lambda t: C("halt", t[0], **{t[1]: t[2]})),
         st.booleans().map(lambda b: C("pause", b)),
         st.booleans().map(lambda b: C("stop", b)),
         st.just(C("wait")),
@@ -179,7 +185,12 @@ def _other_builder_activity(cfg=None):
     o.set_bounds("tool-power", 1, 50)
     o.transform.translate(100.0, 50.0, 25.0)
     o.transform.save_state("shared")
-    o.add_hook(lambda origin, target, params, state: params)
+    def foreign_hook(origin, target, params, state):
+        # a hook registered on THIS builder must only ever see this builder
+        if state is not o.state:
+            raise RuntimeError("a move hook registered on another builder was called")
+        return params
+    o.add_hook(foreign_hook)
     o.move(x=1, y=1, F=20)
     o.tool_on("cw", 10)
     o.coolant_on("mist")
